@@ -7,6 +7,7 @@ import (
 	"fmt"
 	"os"
 	"reflect"
+	"sort"
 	"strconv"
 
 	"github.com/grailbio/bigslice/frame"
@@ -385,6 +386,19 @@ func (w *world) apply(o Op) (opTerm, outTerm string, ok bool) {
 			panic(err)
 		}
 		return opTerm, "RUnit", true
+	case "sort":
+		if !valid(o.F) {
+			return "", "", false
+		}
+		f := w.pool[o.F].f
+		for c := 0; c < f.Prefix(); c++ {
+			if !w.sig[c].key {
+				return "", "", false
+			}
+		}
+		opTerm = vf.App("OSort", vf.Nat(o.F))
+		sort.Sort(f)
+		return opTerm, "RUnit", true
 	case "prefixed":
 		if !valid(o.F) {
 			return "", "", false
@@ -503,8 +517,10 @@ func genCase(r *vf.Rand, nops int) Desc {
 				vals[i] = val()
 			}
 			emit(Op{K: "decode", F: f, C: r.Intn(len(sig)), Vals: vals})
-		case k < 99:
+		case k < 97:
 			emit(Op{K: "prefixed", F: f, I: r.Range(1, len(sig))})
+		case k < 99:
+			emit(Op{K: "sort", F: f})
 		default:
 			// invalid prefixes only: Prefixed(0) is accepted by the code and yields a
 			// frame without key columns, which no operation is defined on
@@ -513,6 +529,52 @@ func genCase(r *vf.Rand, nops int) Desc {
 		if len(w.pool) > 14 { // keep dumps small
 			break
 		}
+	}
+	return d
+}
+
+// genKeyCase aims at comparison, hashing-free ordering and sorting through views
+// with a non-zero offset and multi-column key prefixes: a frame whose leading
+// key column has many ties, re-prefixed, sliced, then compared pairwise and sorted.
+func genKeyCase(r *vf.Rand) Desc {
+	sig := [][]string{{"int", "int8", "vint"}, {"string", "string", "int"}, {"int", "string"}, {"string", "int"}, {"int8", "int", "bytes"}}[r.Intn(5)]
+	d := Desc{Sig: sig}
+	n := r.Range(5, 9)
+	cols := make([][]int64, len(sig))
+	for c := range cols {
+		cols[c] = make([]int64, n)
+		for i := range cols[c] {
+			if c == 0 {
+				cols[c][i] = int64(r.Range(0, 2)) // ties in the leading column
+			} else {
+				cols[c][i] = int64(r.Range(0, 6))
+			}
+		}
+	}
+	d.Ops = append(d.Ops, Op{K: "slices", Cols: cols})
+	nkey := 0
+	for _, t := range sig {
+		if !ctByName(t).key {
+			break
+		}
+		nkey++
+	}
+	p := r.Range(1, nkey)
+	d.Ops = append(d.Ops, Op{K: "prefixed", F: 0, I: p})
+	i := r.Range(0, n-2)
+	j := r.Range(i+2, n)
+	d.Ops = append(d.Ops, Op{K: "slice", F: 1, I: i, J: j}) // view 2: offset i, prefix p
+	m := j - i
+	for a := 0; a < m; a++ {
+		for b := 0; b < m; b++ {
+			if r.Chance(2, 3) {
+				d.Ops = append(d.Ops, Op{K: "less", F: 2, I: a, J: b})
+			}
+		}
+	}
+	d.Ops = append(d.Ops, Op{K: "sort", F: 2})
+	if r.Bool() {
+		d.Ops = append(d.Ops, Op{K: "sort", F: 1})
 	}
 	return d
 }
@@ -536,7 +598,11 @@ func main() {
 		n *= opts.Scale
 		root := vf.NewRand(opts.Seed)
 		for i := 0; i < n; i++ {
-			descs = append(descs, genCase(root.Split(), 6+i%14))
+			if i%5 == 4 {
+				descs = append(descs, genKeyCase(root.Split()))
+			} else {
+				descs = append(descs, genCase(root.Split(), 6+i%14))
+			}
 		}
 	}
 	for _, d := range descs {
